@@ -183,8 +183,10 @@ def finaliser_bypass(ctx):
         sib = [d for d in f.fn_index if (d.startswith(p + '::') or d.startswith('<' + p + ' as ')) and '{closure' not in d]
         if not any(len(set(c for c in f.callees.get(d, ()) if c in sib and c != d)) >= 4 for d in sib):
             continue
+        # the thorough tier spends more on summarising large machines (HashJoinStream::process_probe_batch has thousands of paths)
+        tb, bud = (60, 4000000) if ctx.tier == 'thorough' else (4, 400000)
         try:
-            m = statemach.analyse(f, p)
+            m = statemach.analyse(f, p, time_budget=tb, budget=bud)
         except Undecidable as ex:
             ctx.skip('finaliser-bypass', p, 'state machine not summarised within the budget (%s)' % ex)
             continue
@@ -192,7 +194,7 @@ def finaliser_bypass(ctx):
             ctx.skip('finaliser-bypass', p, 'not a dispatcher + handlers machine with a finaliser state')
             continue
         n += 1
-        statemach.check(ctx, f, p)
+        statemach.check(ctx, f, p, time_budget=tb, budget=bud, m=m)
     ctx.floor('finaliser-bypass', 'join stream state machines with a finaliser state', n, 1)
 
 
